@@ -403,12 +403,16 @@ def lock_wrapper(ctx):
     from pyvc.interp import _Break, _Continue
     n0 = len(clock)
     left = False
-    try:
-        I.exec_block(loops[0].body, fr)
-    except _Break:
+    # one round of the loop: its real test first (a condition may live in the test or in the body), then the body
+    if not I.truth(I.eval(loops[0].test, fr), 'while-test'):
         left = True
-    except _Continue:
-        pass
+    else:
+        try:
+            I.exec_block(loops[0].body, fr)
+        except _Break:
+            left = True
+        except _Continue:
+            pass
     pro = [c for c in calls if c[0] == 'prolongate']
     ctx.prove(len(pro) <= 1, 'C16:wrapper.at-most-one-prolongation-per-round')
     stop = Or(Not(alive), destroying)
